@@ -159,6 +159,8 @@ func c17(r *core.Run) {
 	if ro := resolveMuxRolesFor(r, "G11"); ro != nil {
 		c06RegistrationAccepts(r, "G11", ro)
 	}
+	r.Rule("G12", "the full pattern is composed when asked: the value Mux.FullPath returns (the prefix of every pattern handed to OnRegister and of every listener pattern) derives from the parent mux read at call time - a full path remembered at Mount time is stale for a mux that was mounted before its own parent was (nested Route calls mount inner-first): handlers added afterwards are told a pattern that does not match the names routed to them", 1)
+	c17FullPathFollowsParent(r, "G12")
 	r.Rule("G9", "exact tokenisation: library code never splits with strings/bytes Fields or FieldsFunc (they drop empty tokens, so names with empty tokens are routed like other names and a separators-only name has no first token) and never strips a variable prefix with a cutset function (Trim, TrimLeft, TrimRight)", 1)
 	c17ExactTokens(r, "G9", []string{"", "store", "store/badgerstore", "store/mockstore", "resprot", "middleware", "middleware/resbadger"}, "library")
 	r.Rule("G8", "the pattern handed out at registration is the pattern routed (shared with C06.R11): the registration-time traversal that reconstructs a handler's pattern rebinds the mount index at mount points, as the matcher does; otherwise a handler below a nested mount is told a pattern with its placeholder on another token, and id -> resource id -> id through the transformers is no longer the identity", 2)
@@ -735,7 +737,7 @@ func c17CharClass(r *core.Run, rule string, only map[string]bool) {
 				bad = fmt.Sprintf("accepts character %#x outside 33..126", ch)
 			}
 		}
-		for _, ch := range "azAZ09_-" {
+		for _, ch := range "azAZ09_-!~" { // the last two are the ends of the range (33 and 126)
 			if !cc.Accept[int(ch)] && bad == "" {
 				bad = fmt.Sprintf("rejects the ordinary character %q", ch)
 			}
@@ -750,4 +752,73 @@ func c17CharClass(r *core.Run, rule string, only map[string]bool) {
 		sig := fmt.Sprintf("accepts only 33..126 (all of a-z A-Z 0-9 _ -), singles out '?'=%v", q)
 		r.Check(bad == "", rule, v.name, "character-class", p.Pos(v.fn.Pos()), sig, "validators disagree on the character class: "+v.name+" "+bad+" (expected: exactly the printable non-space ASCII range 33..126 with '?' special)")
 	}
+}
+
+// c17FullPathFollowsParent: some value flowing into a result of Mux.FullPath
+// is read through the mux's parent link (the *Mux member of Mux).
+func c17FullPathFollowsParent(r *core.Run, rule string) {
+	p := r.P
+	fp := methodNamed(p, "", "Mux", "FullPath")
+	if fp == nil || len(fp.Params) == 0 {
+		r.Unres(rule, "Mux.FullPath", "missing")
+		return
+	}
+	isParentLoad := func(v ssa.Value) bool {
+		f, ok := core.LoadedField(v)
+		if !ok || f.Struct != "Mux" {
+			return false
+		}
+		pt, isP := v.Type().Underlying().(*types.Pointer)
+		return isP && core.TypeName(pt.Elem()) == "Mux"
+	}
+	seen := map[ssa.Value]bool{}
+	found := false
+	var back func(v ssa.Value, d int)
+	back = func(v ssa.Value, d int) {
+		if v == nil || seen[v] || d > 10 || found {
+			return
+		}
+		seen[v] = true
+		if isParentLoad(core.Strip(v)) {
+			found = true
+			return
+		}
+		switch x := v.(type) {
+		case *ssa.Call:
+			if x.Common().IsInvoke() {
+				back(x.Common().Value, d+1)
+			}
+			for _, a := range x.Common().Args {
+				back(a, d+1)
+			}
+		case *ssa.Phi:
+			for _, e := range x.Edges {
+				back(e, d+1)
+			}
+		case *ssa.BinOp:
+			back(x.X, d+1)
+			back(x.Y, d+1)
+		case *ssa.UnOp:
+			back(x.X, d+1)
+		case *ssa.FieldAddr:
+			back(x.X, d+1)
+		case *ssa.Convert:
+			back(x.X, d+1)
+		case *ssa.Extract:
+			back(x.Tuple, d+1)
+		}
+	}
+	n := 0
+	for _, h := range p.Helpers(fp) {
+		for _, ret := range core.Returns(h) {
+			if h != fp {
+				continue
+			}
+			n++
+			for _, rv := range ret.Results {
+				back(rv, 0)
+			}
+		}
+	}
+	r.Check(found && n > 0, rule, core.FuncName(fp), "result-derives-from-the-parent-link", p.Pos(fp.Pos()), "a value read through the parent mux flows into the result", "no result of FullPath depends on anything read through the parent mux: the path of the parents is not followed at call time (a prefix stored at Mount time is a snapshot - wrong for every mux mounted before its parent was attached)")
 }
